@@ -22,7 +22,7 @@ RULE = ('case = (configuration, 0-2 observers, fault history <=250 steps, closin
 ASSUMPTIONS = ['no node loses its memory', 'quiet phase = 20 ms ticks on every node, prompt FIFO delivery, reconnects allowed',
                'bound: one leader within 100 x raftMaxTimeout, SUCCESS within 20 x raftMaxTimeout (virtual time)']
 
-EXTRA = [('rojoin', 2), ('roleave', 1)]
+EXTRA = [('rojoin', 2), ('roleave', 1), ('churn', 2)]
 
 
 def strategy(tier):
@@ -66,6 +66,7 @@ def run_case(case):
                 compact_nonleader[0] = True
         viol = None
         # ---- closing phase: faults stop
+        sim.quiet_config()
         voters = [v for v in sim.voters if v in sim.nodes]
         if case['closing'] == 'majority' and len(voters) >= 3:
             k = (len(voters) - 1) // 2
